@@ -969,4 +969,3 @@ func collectVars(t *Term, seen map[int]bool, out *[]*Term) {
 		collectVars(a, seen, out)
 	}
 }
-
